@@ -355,13 +355,21 @@ func (d *ixDecoy) Delete(_ context.Context, key []byte) error {
 	return nil
 }
 
-// callerAppends: the caller goes on using the slice it spread into NewInvalidationIndex.
+// callerAppends: the caller goes on using the slice it spread into NewInvalidationIndex: it derives a longer list
+// from it (tmp := append(all, more...)) after the set-up and after every AddCache, each time starting from the slice
+// as it was - whose spare capacity is where an index that kept the slice would have put the caches added since.
 func (r *ixRun) callerAppends() {
-	if !r.sc.CtorSpare || len(r.ctor) == 0 || len(r.ctor) == cap(r.ctor) {
+	if !r.sc.CtorSpare || len(r.ctor) == 0 {
 		return
 	}
 
-	r.ctor = append(r.ctor, &ixDecoy{r: r})
+	r.appends++
+
+	tmp := r.ctor
+	for i := 0; i < r.appends && len(tmp) < cap(tmp); i++ {
+		tmp = append(tmp, &ixDecoy{r: r})
+	}
+
 	r.e.out.fault("caller_appends_to_ctor_slice")
 }
 
@@ -403,15 +411,16 @@ type ixRec struct {
 }
 
 type ixRun struct {
-	e      *env
-	sc     *IndexScenario
-	ix     *cache.InvalidationIndex
-	stores []*trStore
-	dels   []*ixDelCall
-	nDel   int
-	failAt int
-	recs   []*ixRec
-	ctor   []cache.Deleter // the caller's own slice that was spread into NewInvalidationIndex
+	e       *env
+	sc      *IndexScenario
+	ix      *cache.InvalidationIndex
+	stores  []*trStore
+	dels    []*ixDelCall
+	nDel    int
+	failAt  int
+	recs    []*ixRec
+	ctor    []cache.Deleter // the caller's own slice that was spread into NewInvalidationIndex
+	appends int
 
 	// reference model: cache name -> label -> keys (multiset), maintained for sequential runs
 	labels map[string]map[string][]string
